@@ -23,7 +23,7 @@ RULE = ("each case compiles one generated model for one configuration (backend i
         "distinct = distinct (spec, configuration) hash")
 DECIDING = ['derivatives_compared', 'torch_cases', 'jax_cases', 'fortran_cases', 'default_cases', 'float32_cases', 'rows_compared',
             'adaptive_rows_compared', 'interp_probe_points', 'readonly_param_probes', 'jax_checkify_probes', 'fortran_builds_checked',
-            'runs_with_coarser_sampling']
+            'runs_with_coarser_sampling', 'literal_magnitude_models']
 ASSUMPTIONS = ['float32 builds are compared at rtol 5e-4 on well-conditioned probe points only',
                'feature set per backend is what the backend accepts (Fortran: scalar models; JAX: no ring buffers); refusals are C20\'s business']
 CASE_TIMEOUT = 420
@@ -46,6 +46,11 @@ def plan(tier, seed):
     for b in n:
         cases += [{'family': 'sampling', 'cseed': rnd.randrange(1 << 30), 'backend': b, 'mode': 'run_fixed', 'prec': 'float64',
                    'force_sampling': True} for _ in range(8 if tier == 'quick' else 120)]
+    # literal magnitudes: very small / very large numeric literals in equations (printing and precision of literals differs
+    # per backend; Fortran needs double precision literals)
+    for b, kk in (('fortran', 12), ('default', 3), ('torch', 3), ('jax', 3)):
+        cases += [{'family': 'literals', 'cseed': rnd.randrange(1 << 30), 'backend': b, 'mode': 'vf', 'prec': 'float64',
+                   'force_literals': True} for _ in range(kk if tier == 'quick' else kk * 12)]
     opened = open_risks(PID)
     k = 6 if tier == 'quick' else 40
     for feat in FOCUS:
@@ -73,6 +78,37 @@ def backend_class(name):
     return bc(name)
 
 
+def scale_literals(spec, rnd):
+    """Numeric literals of very small / very large magnitude (2.3e-06, 170000.0) written directly in an equation, balanced by a
+    constant of the reciprocal magnitude so that the term keeps its O(1) weight: c*X  ->  (c*s)*zbig*X  with zbig = 1/s."""
+    from vp import expr as E
+    done = False
+    for opn, op in spec['ops'].items():
+        for eq in op['eqs']:
+            if eq[0] != 'de' or done:
+                continue
+            tree = E.fromlist(eq[2])
+            scale = rnd.choice([1e-5, 1e-7, 1e-4, 1e5])
+            state = {'hit': False}
+
+            def rewrite(e):
+                if state['hit'] or not isinstance(e, tuple):
+                    return e
+                if e[0] == 'mul' and e[1][0] == 'num' and abs(e[1][1]) >= 0.1 and e[2][0] != 'num':
+                    state['hit'] = True
+                    lit = float(f"{e[1][1] * scale:.3e}")
+                    return ('mul', ('mul', ('num', lit), ('var', 'zbig')), e[2])
+                if e[0] in ('num', 'var', 'const'):
+                    return e
+                return (e[0],) + tuple(rewrite(a) if isinstance(a, tuple) else a for a in e[1:])
+            new = rewrite(tree)
+            if state['hit'] and 'zbig' not in op['vars']:
+                eq[2] = E.tolist(new)
+                op['vars']['zbig'] = ['const', 1.0 / scale]
+                done = True
+    return done
+
+
 def run_case(case, ctx):
     rnd = random.Random(case['cseed'])
     b, mode, prec = case['backend'], case['mode'], case['prec']
@@ -91,7 +127,7 @@ def run_case(case, ctx):
     if prec == 'float32':
         mech['float32_cases'] = 1
     # ---- model -------------------------------------------------------------------------------------------------------------
-    vec = b != 'fortran' and rnd.random() < 0.5
+    vec = b != 'fortran' and rnd.random() < 0.5 and not case.get('force_literals')
     for attempt in range(100):
         if vec:
             spec, feats, r0 = c04.make_spec({'cseed': rnd.randrange(1 << 30)}, ctx['excluded'])
@@ -102,6 +138,10 @@ def run_case(case, ctx):
         else:
             spec, feats, r0 = gen.gen_net(rnd, pool=gen.SAFE_POOL, n_nodes=rnd.choice([1, 2, 3]), max_types=2, depth=rnd.choice([0, 0, 1]),
                                           forbid=ctx['excluded'], funcs=FUNCS, edge_density=rnd.choice([0.3, 0.6]))
+        if not vec and (case.get('force_literals') or rnd.random() < (0.5 if b == 'fortran' else 0.25)):
+            if scale_literals(spec, rnd):
+                feats = feats + ['literal_magnitudes']
+                mech['literal_magnitude_models'] = 1
         ref = RefModel(spec)
         if len(ref.state_keys) <= 14:
             break
@@ -148,7 +188,7 @@ def run_case(case, ctx):
                         raise observe.Mismatch(f"S-jax: checkify reports {e}")
                     mech['jax_checkify_unavailable'] = 1
             observe.compare_vf(obs, ref, rnd, ctx['mp'], n_points=4, vectorized=vec, mech=mech, perturb=(prec == 'float64' and b != 'fortran'),
-                               rtol=5e-4 if prec == 'float32' else 1e-8)
+                               rtol=5e-4 if prec == 'float32' else 2e-10)
         elif mode == 'run_fixed':
             solvers = [s for s in backend_class(b).SUPPORTED_SOLVERS if s in ('euler', 'heun')]
             solver = rnd.choice(solvers)
